@@ -20,38 +20,51 @@ def measure_map(qc):
 
 
 def job(args):
-    n, conn, orb, seed = args
+    n, conn, orb, seed = args[:4]
+    variant = args[4] if len(args) > 4 else "mixed"
+    vk = "" if variant == "mixed" else ":" + variant
     from qiskit import QuantumCircuit
     from htstabilizer.tomography import stabilizer_measurement_circuit, StabilizerMeasurementFitter
     rnd = random.Random(seed)
     gid = G.orbit_table(n)[1][orb]
     rows = [(x, z) for x, z, _ in G.graph_state_gens(n, G.adj_from_id(n, gid))]
     rows = G.apply_layer_unsigned(n, rows, [rnd.randrange(6) for _ in range(n)])
-    rows = e2e.generator_changes(n, rows, rnd, 1)[0]
+    if variant == "mixed":
+        rows = e2e.generator_changes(n, rows, rnd, 1)[0]
+    else:
+        rows = e2e.weighted_generating_set(n, rows, rnd, heavy=(variant == "heavy"))
     gens = [(x, z, rnd.randrange(2)) for x, z in rows]
     st = e2e.mk_stabilizer(n, gens)
     label = [P.to_label(n, g) for g in gens]
-    rp = {"n": n, "connectivity": conn, "paulis": label, "job": [n, conn, orb, seed]}
+    rp = {"n": n, "connectivity": conn, "paulis": label, "job": [n, conn, orb, seed, variant]}
     out = []
     circ = stabilizer_measurement_circuit(QuantumCircuit(n), st, conn)
     ro = adapt.gates_of(circ.metadata["readout info"].circuit)
     body = [g for g in adapt.gates_of(circ) if g[0] not in P.IGNORED]
     mm = measure_map(circ)
     ok_asm = body == ro and mm == [(i, i) for i in range(n)] and circ.metadata["readout info"].qubits is None
-    out.append(("C12.circuit_assembly", ok_asm, f"asm:{n}:{conn}:{orb}", f"measurement circuit for {label} on {n}-{conn}: body != readout circuit or measure map {mm}", rp))
-    counts = tomo.symbolic_counts(n, "c")
-    try:
+    out.append(("C12.circuit_assembly", ok_asm, f"asm:{n}:{conn}:{orb}{vk}", f"measurement circuit for {label} on {n}-{conn}: body != readout circuit or measure map {mm}", rp))
+    def symbolic():
+        counts = tomo.symbolic_counts(n, "c")
         vals = StabilizerMeasurementFitter(tomo.FakeResult(counts), circ).expectation_values()
         probs = tomo.check_fitter_dict(vals, ro, n, n, None, "c", True)
         keys = {tomo.pauli_to_xz(k)[:2] for k in vals}
         grp = {(x, z) for x, z, _ in P.group_elements(n, gens)}
         if keys != grp:
             probs.append("keys are not exactly the unsigned elements of the given stabilizer group")
-    except tomo.SymbolicBranch as e:
-        probs = [f"fitter branched on a count value: {e}"]
-    except Exception as e:
-        probs = [f"fitter raised {type(e).__name__}: {e}"]
-    out.append(("C12.fitter.values", not probs, f"fit:{n}:{conn}:{orb}", f"stabilizer measurement of {label} on {n}-{conn}: {probs[:3]}", rp))
+        return probs
+
+    ok, probs = tomo.symbolic_or_withdraw(symbolic, lambda: StabilizerMeasurementFitter(tomo.FakeResult(tomo.dense_concrete(n, 1, rnd)[0]), circ).expectation_values())
+    out.append(("C12.fitter.values", ok, f"fit:{n}:{conn}:{orb}{vk}", f"stabilizer measurement of {label} on {n}-{conn}: {probs[:3]}", rp))
+    # the same contract on concrete results (absent keys for outcomes that never occurred): deterministic outcomes, two-outcome results, dense counts, float probabilities
+    for tag, cl in tomo.concrete_sets(n, 1, rnd, all_deltas=n <= 3, light=True):
+        try:
+            vals = StabilizerMeasurementFitter(tomo.FakeResult(cl[0]), circ).expectation_values()
+            pc = tomo.check_concrete(vals, [(ro, n, None, True)], cl, n)
+        except Exception as e:
+            pc = [f"fitter raised {type(e).__name__}: {e}"]
+        out.append(("C12.fitter.values.concrete_results", not pc, f"conc:{n}:{conn}:{orb}{vk}:{tag}", f"stabilizer measurement of {label} on {n}-{conn}, {tag}: {pc[:3]}",
+                    dict(rp, counts=tag, first_counts={k: v for k, v in list(cl[0].items())[:4]})))
     return out
 
 
@@ -74,13 +87,23 @@ def run(ctx: core.Ctx):
             rnd.shuffle(orbs)
             orbs = sorted(orbs[:120])
         jobs += [(n, conn, o, rnd.randrange(1 << 30)) for o in orbs]
+        # generator lists made of the heaviest / lightest group elements (product and sign bookkeeping on many qubits at once)
+        if n >= 4:
+            sub = orbs if (n < 6 or not ctx.quick) else orbs[:40]
+            jobs += [(n, conn, o, rnd.randrange(1 << 30), v) for o in sub for v in (("heavy", "light") if n < 6 or not ctx.quick else ("heavy",))]
     t = time.time()
     for res in core.pmap(job, jobs):
         for famname, ok, key, what, rp in res:
-            fam = ctx.family(famname, SYM, "native-exec+linear-normal-form+oracle")
+            conc = famname.endswith("concrete_results")
+            fam = ctx.family(famname, GROUND if conc else SYM, "native+oracle" if conc else "native-exec+linear-normal-form+oracle")
             fam.exhaustive = True
             fam.domain = ("every class of every advertised configuration (one seeded member each)" if not ctx.quick else
-                          "every class for n<=5, 120 seeded classes per 6-qubit configuration (one seeded member each)") + "; ALL outcome distributions (symbolic counts)"
+                          "every class for n<=5, 120 seeded classes per 6-qubit configuration (one seeded member each)") + \
+                ("; concrete results: deterministic outcomes (all for n<=3), two-outcome results, dense counts, float probabilities; absent keys" if conc else "; ALL outcome distributions (symbolic counts)")
+            if ok is None:
+                ctx.record(fam, core.UNKNOWN, rp)
+                ctx.undecide(fam, what)
+                continue
             ctx.record(fam, PROVED if ok else REFUTED, rp if fam.total < 2 else None)
             if not ok:
                 ctx.violate(fam, key, what, rp)
@@ -98,7 +121,7 @@ def run(ctx: core.Ctx):
 
 def replay(data):
     inp = data["input"]
-    bad = [r for r in job(tuple(inp["job"])) if not r[1]]
+    bad = [r for r in job(tuple(inp["job"])) if r[1] is False]
     for r in bad:
         print("REPRODUCED:", r[3])
     return 1 if bad else 0
